@@ -48,6 +48,8 @@ def _static_job(args):
                 bad = SI.guarded_reads(fn, oname)
             elif name == "progress":
                 bad = SI.progress(fn)
+            elif name == "prologue":
+                bad = SI.prologue(fn, member)
             elif name == "value_blind":
                 bad = SI.value_blind(fn)
             elif name == "compute_ro":
